@@ -20,6 +20,7 @@ Definition dec_op (x : N * N) : op :=
   let '(tag, a) := x in let a := N.to_nat a in
   match tag with
   | 1 => OpMeter a | 2 => OpInst a | 3 => OpRecord a | 4 => OpRegister a | 5 => OpUnregister a | 6 => OpInstall
+  | 11 => OpInstAgain (a / 1024) (a mod 1024)   (* meter * 1024 + step of the first request of the identity *)
   | _ => OpNone
   end.
 Definition dec_top (x : N * N) : top :=
@@ -31,10 +32,16 @@ Inductive case :=
     history the harness recorded, [live] says for each registration how many times its
     callback ran in one final Collect of the installed SDK, how many of its instruments
     showed the value it observed, and how many instruments it has: (r, ran, found, ninst);
-    empty when no SDK was installed (nothing can be collected). *)
-| CSeq (steps : list (N * N)) (h : list (N * N * N)) (live : list (N * N * N * N))
+    empty when no SDK was installed (nothing can be collected).  [cbs]: identifiers of callbacks
+    passed to an observable-instrument constructor (creation-time callbacks); the model has no
+    such operation, so their events are left out of the model comparison and judged by the
+    specification only. *)
+| CSeq (steps : list (N * N)) (cbs : list N) (h : list (N * N * N)) (live : list (N * N * N * N))
 (** A free-running (concurrent) scenario: judged by the specification alone. *)
 | CHist (h : list (N * N * N)) (live : list (N * N * N * N)).
+
+Definition is_cb_event (cbs : list N) (e : ev) : bool :=
+  existsb (fun r => existsb (N.eqb r) cbs) (ev_regs e).
 
 Definition same_counts (h1 h2 : history) : bool :=
   forallb (fun e => Nat.eqb (count e h1) (count e h2)) (h1 ++ h2).
@@ -68,11 +75,13 @@ Definition flag (b : bool) (code : N) : list N := if b then [] else [code].
 
 Definition check_case (c : case) : list N :=
   match c with
-  | CSeq steps h live =>
+  | CSeq steps cbs h live =>
       let hi := dec_hist h in
       let m := model_run steps in
       let hm := hist (fst m) ++ thist (snd m) in
-      flag (all_done steps m && same_counts hm hi && model_live (fst m) live) V_MISMATCH ++
+      let hi' := filter (fun e => negb (is_cb_event cbs e)) hi in
+      let live' := filter (fun p => let '(r, _, _, _) := p in negb (existsb (N.eqb r) cbs)) live in
+      flag (all_done steps m && same_counts hm hi' && model_live (fst m) live') V_MISMATCH ++
       flag (spec_ok hi && live_ok hi live && ids_unique hi) V_SPECFAIL ++
       flag (spec_ok hm) V_MODELSPEC
   | CHist h live =>
@@ -84,6 +93,6 @@ Definition run (cs : list case) : list (N * N) := index_from 0 check_case cs.
 
 (** Smoke tests of the evaluator itself. *)
 Example corr_ex1 :
-  check_case (CSeq [(1,0);(2,0);(4,0);(6,0);(3,1)]
+  check_case (CSeq [(1,0);(2,0);(4,0);(6,0);(3,1)] []
                    [(0,0,0);(10,2,0);(1,0,0);(2,1,0);(5,2,0);(6,2,0)] [(2,1,1,1)]) = [1].
 Proof. vm_compute. reflexivity. Qed.
